@@ -182,8 +182,11 @@ def gen_tree(rng, prof=None, depth=0, idgen=None, top=True, maxdepth=None):
     spec['critical'] = rng.random() < p.get('p_sched_critical', 0.6)
     spec['forever'] = (not top) and rng.random() < p.get('p_forever_sched', 0.1)
     spec['verbose'] = rng.random() < p.get('p_verbose', 0.08)
-    if rng.random() < 0.3:
+    r = rng.random()
+    if r < 0.25:
         spec['style'] = 'incremental'
+    elif r < 0.45:
+        spec['style'] = 'required_arg'
     if top and rng.random() < 0.3:
         spec['entry'] = 'co_run'
     if spec['verbose'] and rng.random() < 0.5:
